@@ -337,7 +337,7 @@ fn run_session(row: &Value, profile: &str, seed: u64, idx: u64, out: &mut Vec<St
                         0 => r.next(),
                         1 => u64::MAX - r.below(3),
                         _ => {
-                            sent_nonce[who] += 1;
+                            sent_nonce[who] = sent_nonce[who].wrapping_add(1);
                             sent_nonce[who]
                         },
                     };
